@@ -28,9 +28,11 @@ RNG_FUNCS = ["seed", "choice", "random", "rand", "randn", "randint", "uniform", 
 
 class Monitor:
     """Records calls to numpy's global-generator functions (module attributes)."""
-    def __init__(self):
+    def __init__(self, track_state=False):
         self.events = []
         self.saved = {}
+        self.track_state = track_state
+        self.states = []
 
     def __enter__(self):
         for name in RNG_FUNCS:
@@ -40,6 +42,8 @@ class Monitor:
 
                 def wrapper(*a, _n=name, _o=orig, **k):
                     self.events.append((_n, a[0] if (_n == "seed" and a) else None))
+                    if self.track_state and _n != "seed":
+                        self.states.append(state_digest())      # generator state each draw starts from
                     return _o(*a, **k)
                 setattr(np.random, name, wrapper)
         return self
@@ -83,6 +87,23 @@ def monitor_checks(ctx, horizons):
                 ctx.violation("oracle/rng/path-draws-before-seeding",
                               f"get_path_based drew from the global generator before re-seeding it: first events {mon.events[:4]}",
                               {"example": "mirp_g1.get_mirp", "horizon": h, "events": [list(map(str, e)) for e in mon.events[:10]]}, True)
+            # model (Rng.v): after the re-seed, the state every draw starts from is a function of the seed and of the
+            # draws made since -- never of the caller's state.  Compare the per-draw states of two builds of the same
+            # problem started from different generator states.
+            seqs = []
+            for prior2 in (11, 12):
+                np.random.seed(prior2)
+                np.random.random(prior2)
+                with Monitor(track_state=True) as mon2:
+                    get_mirp(h).get_path_based()
+                seqs.append(mon2.states)
+            n += 1
+            if seqs[0] != seqs[1]:
+                k = next((i for i, (a, b) in enumerate(zip(seqs[0], seqs[1])) if a != b), min(len(seqs[0]), len(seqs[1])))
+                ctx.defer_violation("oracle/rng/path-draw-state-depends-on-prior-state",
+                                    f"get_path_based (G1, horizon {h}): draw #{k} of {len(seqs[0])}/{len(seqs[1])} starts from a generator state that depends on "
+                                    "the state before the build (the model re-seeds once and never restores the caller's state); no differing output was found",
+                                    {"example": "mirp_g1.get_mirp", "horizon": h, "first_differing_draw": k})
             ctx.cov.setdefault("rng_trace_samples", [])
             if len(ctx.cov["rng_trace_samples"]) < 2:
                 ctx.cov["rng_trace_samples"].append({"horizon": h, "first_events": [list(map(str, e)) for e in mon.events[:3]],
@@ -112,11 +133,11 @@ def run(ctx):
         "np.random.seed(z) with an explicit z forgets the previous state (the only law assumed of the oracle in the theorems)",
     ]
     if ctx.quick:
-        tasks = ["small", "g1:16.0", "rand:1:1:40:1", "rand:1:1:40:0"]
+        tasks = ["small", "g1:16.0", "rand:1:1:40:1", "rand:1:1:40:0", "sym:0", "sym:1"]
         envs = [(0, "fresh"), (1, "seeded"), (2, "advanced"), ("random", "fresh"), ("random", "advanced")]
         mon_h = [16.0]
     else:
-        tasks = ["small", "g1:16.0", "g1:20.0", "g1:27.5", "rand:1:1:40:1", "rand:1:1:40:0", "rand:2:1:30:5", "rand:1:2:40:7", "rand:2:2:30:11"]
+        tasks = ["small", "g1:16.0", "g1:20.0", "g1:27.5", "rand:1:1:40:1", "rand:1:1:40:0", "rand:2:1:30:5", "rand:1:2:40:7", "rand:2:2:30:11", "sym:0", "sym:1", "sym:2"]
         envs = [(hs, pr) for hs in (0, 1, 2, "random") for pr in ("fresh", "seeded", "advanced")]
         mon_h = [16.0, 20.0, 27.5]
 
